@@ -4,6 +4,7 @@
 package prog
 
 import (
+	"encoding/json"
 	"fmt"
 	"go/ast"
 	"go/token"
@@ -37,7 +38,126 @@ type Program struct {
 	CG       *callgraph.Graph
 	Thorough bool
 	inModule map[*ssa.Function]bool
+	// alias: (pkg, receiver, current base name) -> the name the function had in the reference snapshot.
+	// A function that was only renamed keeps its identity in every key and anchor.
+	alias   map[string]string
+	Renames []string
 }
+
+// SnapshotPath names the reference list of module functions (funcs.json); empty: no rename detection.
+var SnapshotPath string
+
+// FuncSig is one entry of the reference snapshot.
+type FuncSig struct {
+	Pkg  string `json:"pkg"`
+	Recv string `json:"recv"`
+	Name string `json:"name"`
+	Sig  string `json:"sig"`
+}
+
+func (p *Program) sigOf(f *ssa.Function) (FuncSig, bool) {
+	if f.Parent() != nil {
+		return FuncSig{}, false
+	}
+	g := f
+	if o := f.Origin(); o != nil {
+		g = o
+	}
+	pk := pkgOf(g)
+	if pk == nil {
+		return FuncSig{}, false
+	}
+	q := func(tp *types.Package) string { return tp.Name() }
+	recv := ""
+	if r := g.Signature.Recv(); r != nil {
+		recv = types.TypeString(r.Type(), q)
+	}
+	anon := func(t *types.Tuple) *types.Tuple {
+		var vs []*types.Var
+		for i := 0; i < t.Len(); i++ {
+			vs = append(vs, types.NewVar(token.NoPos, nil, "", t.At(i).Type()))
+		}
+		return types.NewTuple(vs...)
+	}
+	sig := types.TypeString(types.NewSignatureType(nil, nil, nil, anon(g.Signature.Params()), anon(g.Signature.Results()), g.Signature.Variadic()), q)
+	return FuncSig{Pkg: p.Rel(pk.Pkg), Recv: recv, Name: g.Name(), Sig: sig}, true
+}
+
+// Snapshot lists the top-level module functions (generic functions once, by their origin).
+func (p *Program) Snapshot() []FuncSig {
+	seen := map[string]bool{}
+	var out []FuncSig
+	for _, f := range p.Funcs {
+		fs, ok := p.sigOf(f)
+		if !ok {
+			continue
+		}
+		k := fs.Pkg + "\x00" + fs.Recv + "\x00" + fs.Name
+		if !seen[k] {
+			seen[k] = true
+			out = append(out, fs)
+		}
+	}
+	sort.Slice(out, func(i, j int) bool {
+		a, b := out[i], out[j]
+		if a.Pkg != b.Pkg {
+			return a.Pkg < b.Pkg
+		}
+		if a.Recv != b.Recv {
+			return a.Recv < b.Recv
+		}
+		return a.Name < b.Name
+	})
+	return out
+}
+
+// detectRenames compares the functions of the tree with the reference snapshot: a function that is in the
+// snapshot but not in the tree, and a function that is in the tree but not in the snapshot, are the same
+// function renamed when they share package, receiver and signature and the pairing is unambiguous.
+func (p *Program) detectRenames() {
+	p.alias = map[string]string{}
+	if SnapshotPath == "" {
+		return
+	}
+	b, err := os.ReadFile(SnapshotPath)
+	if err != nil {
+		return
+	}
+	var ref []FuncSig
+	if json.Unmarshal(b, &ref) != nil {
+		return
+	}
+	key := func(f FuncSig) string { return f.Pkg + "\x00" + f.Recv + "\x00" + f.Name }
+	cur := p.Snapshot()
+	curSet, refSet := map[string]bool{}, map[string]bool{}
+	for _, f := range cur {
+		curSet[key(f)] = true
+	}
+	for _, f := range ref {
+		refSet[key(f)] = true
+	}
+	group := func(f FuncSig) string { return f.Pkg + "\x00" + f.Recv + "\x00" + f.Sig }
+	gone, fresh := map[string][]FuncSig{}, map[string][]FuncSig{}
+	for _, f := range ref {
+		if !curSet[key(f)] {
+			gone[group(f)] = append(gone[group(f)], f)
+		}
+	}
+	for _, f := range cur {
+		if !refSet[key(f)] {
+			fresh[group(f)] = append(fresh[group(f)], f)
+		}
+	}
+	for g, olds := range gone {
+		news := fresh[g]
+		if len(olds) == 1 && len(news) == 1 {
+			p.alias[key(news[0])] = olds[0].Name
+			p.Renames = append(p.Renames, fmt.Sprintf("%s.%s%s is %s of the reference tree, renamed", news[0].Pkg, news[0].Recv, news[0].Name, olds[0].Name))
+		}
+	}
+	sort.Strings(p.Renames)
+}
+
 
 // Load type-checks the module in dir and builds SSA. With deps=true the
 // dependencies are loaded from source too (thorough tier).
@@ -129,6 +249,7 @@ func Load(dir string, deps bool, env []string) (*Program, error) {
 		keep = append(keep, f)
 	}
 	p.Funcs = keep
+	p.detectRenames()
 	for _, f := range p.Funcs {
 		id := p.FuncID(f)
 		if _, dup := p.funcByID[id]; dup {
@@ -215,12 +336,24 @@ func (p *Program) FuncID(f *ssa.Function) string {
 		rel = p.Rel(pk.Pkg)
 	}
 	name := f.Name()
+	base := name
+	if o := f.Origin(); o != nil {
+		base = o.Name()
+	}
+	if len(p.alias) > 0 {
+		if fs, ok := p.sigOf(f); ok {
+			if old, ok := p.alias[fs.Pkg+"\x00"+fs.Recv+"\x00"+fs.Name]; ok {
+				base = old
+				name = old
+			}
+		}
+	}
 	if o := f.Origin(); o != nil {
 		var ta []string
 		for _, t := range f.TypeArgs() {
 			ta = append(ta, types.TypeString(t, func(pk *types.Package) string { return pk.Name() }))
 		}
-		name = o.Name() + "[" + strings.Join(ta, ",") + "]"
+		name = base + "[" + strings.Join(ta, ",") + "]"
 	}
 	if recv := f.Signature.Recv(); recv != nil {
 		rt := recv.Type()
